@@ -84,6 +84,11 @@ def build_doc(kind, ta, tb, leaves):
     tag, at = leaves[kind]
     ti = TRANSFORMS.index(ta) + TRANSFORMS.index(tb)
     own = [TRANSFORMS[(ti + k * 3 + 1) % len(TRANSFORMS)] for k in range(4)]
+    if ti % 3 == 1:
+        # a top-level leaf whose ONLY transform is one of the near-identity ones (the composed matrix is then
+        # within 1e-5 of the identity without being it)
+        near = [t for t in TRANSFORMS if t and t.startswith(('scale(1.000004', 'rotate(0.0004', 'translate(0.000000004', 'skewX(0.0005', 'matrix(1 0 0 1.0000001'))]
+        own[0] = near[(ti // 3) % len(near)]
     tc = TRANSFORMS[(ti + 5) % len(TRANSFORMS)]
     recs = []
 
@@ -302,6 +307,30 @@ def check_doc(kind, ta, tb, acc, tmpdir, leaves, readers=None):
             else:
                 for i, p in zip(ids, paths):
                     judge('SaxDocument', p, byid[i], True, case)
+    # ---- SaxDocument written out again (SaxDocument.save keeps d, the composed matrix, fill and stroke) and re-read
+    if readers is None or 'SaxDocument.save+SaxDocument' in readers:
+        case = dict(case0, reader='SaxDocument.save+SaxDocument')
+        acc.case(case, cls='SaxDocument.save/%s' % kind, nontrivial=nontriv)
+
+        def run_sax_again():
+            sd = SaxDocument(fn)
+            fn2 = os.path.join(tmpdir, 'doc_saved_by_sax.svg')
+            sd.save(fn2)
+            sd2 = SaxDocument(fn2)
+            return [v.get('stroke') for v in sd2.tree], sd2.flatten_all_paths()
+        with warnings.catch_warnings():
+            warnings.simplefilter('ignore')
+            r = outcome(run_sax_again)
+        if r[0] != 'ok':
+            acc.violation('reader_raises', {'reader': 'SaxDocument.save+SaxDocument', 'element': kind if tagk == 'rect' else tagk, 'exc': r[1]}, case, observed=r)
+        else:
+            strokes, paths = r[1]
+            ids = ['leaf' + str(st)[-1] if st else None for st in strokes]
+            if sorted(map(str, ids)) != sorted(byid) or len(paths) != len(ids):
+                acc.violation('wrong_set_of_elements', {'reader': 'SaxDocument.save+SaxDocument', 'element': tagk}, case, observed=ids, expected=sorted(byid))
+            else:
+                for i, p in zip(ids, paths):
+                    judge('SaxDocument.save+SaxDocument', p, byid[i], True, case)
 
 
 def tier_leaves(tier):
